@@ -38,6 +38,10 @@ CHECKS = {
          "deterministic simulation: seeded write/read/close histories (valid and off-grid writes, same or fresh handle) through the real PrecomputedIO + file and sharded accessors on SimFS, refinement against an array model",
          "Seeded search over infos (5 data types, channels, multi-scale, 1-2 chunk sizes, raw / compressed_segmentation incl. non-cubic blocks / JPEG) x accessor kinds and options x operation histories; every read compared with the model (exact for lossless, calibrated bound for JPEG ramps); off-grid writes must raise and leave the tree unchanged. Sampling, not proof.",
          "Trusts SimFS, the independent on-grid predicate in checks/c03.py and the JPEG tolerance calibration (max error 13 measured over the ramp family, threshold 52)."),
+ "C10": ("exploration",
+         "deterministic simulation with storage-corruption faults: a valid chunk written by the real writer on SimFS, its stored payload corrupted (torn, stale tail, bit flips, lost sector, misdirected block, random replacement, targeted header-field edits) between write and a fresh read; outcome oracle array-of-exact-shape | InvalidFormatError, 5 s watchdog",
+         "Seeded search over encodings x data types x channels x shapes x block sizes x label distributions x storage kinds and 12-40 corruptions per valid chunk. Sampling of an exponential byte-string space, biased to format boundaries and header fields.",
+         "Trusts the corruption generators' format knowledge (cseg header layout, JPEG SOF segment) only for *placing* edits; the oracle itself needs no format knowledge. Borderline applicability is discussed in DESIGN.md 2.2."),
 }
 
 def main():
